@@ -1,4 +1,5 @@
 import MLProps.Bridge
+import MLProps.Grad
 import Mathlib.Analysis.SpecialFunctions.Log.Basic
 import Mathlib.Tactic.Linarith
 import Mathlib.Tactic.Positivity
@@ -8,17 +9,6 @@ import Mathlib.Tactic.Positivity
 open ML
 
 variable {n k d : ℕ} {α : Type}
-
-/-- the denominator of the softmax is positive as soon as there is another sample -/
-theorem softmax_denom_pos (e : Mat ℝ n n) (i : Fin n) (h : ∃ l : Fin n, l ≠ i) :
-    0 < ∑ l, (if l = i then 0 else Real.exp (-(e i l))) := by
-  obtain ⟨l0, hl0⟩ := h
-  have hnn : ∀ l ∈ Finset.univ, 0 ≤ (if l = i then (0:ℝ) else Real.exp (-(e i l))) := by
-    intro l _; split
-    · exact le_refl _
-    · exact (Real.exp_pos _).le
-  have : 0 < (if l0 = i then (0:ℝ) else Real.exp (-(e i l0))) := by rw [if_neg hl0]; exact Real.exp_pos _
-  exact lt_of_lt_of_le this (Finset.single_le_sum hnn (Finset.mem_univ l0))
 
 /-- **softmax / logsumexp identity**: the value the code computes,
 `exp(−d_ij − logsumexp_{l≠i}(−d_il))`, is the documented `exp(−d_ij)/Σ_{l≠i} exp(−d_il)` -/
@@ -329,3 +319,282 @@ theorem C10_lmnn_doc_forms (L : Mat ℝ k d) (X : Mat ℝ n d) (y : Fin n → In
 theorem C10_lmnn_code_eq_doc (L : Mat ℝ k d) (X : Mat ℝ n d) (y : Fin n → Int) (targets : Fin n → List (Fin n)) (reg : ℝ) :
     (lmnnCodeObjective L X (allTargetPairs targets) (allTriples y targets) reg).1 = lmnnObjective L X y targets reg := by
   rw [C10_lmnn_code_objective, C10_lmnn_doc_forms]
+
+/-! ## The gradients handed to the optimiser are the derivatives of the documented objectives
+
+A matrix `G` is the gradient of `f` at `L` when `d/dt f(L + t·D)|_{t=0} = ⟨G, D⟩_F` for EVERY direction `D`. -/
+
+/-- the weight matrix of NCA's gradient in terms of the documented softmax -/
+theorem ncaWeights_doc (L : Mat ℝ k d) (X : Mat ℝ n d) (y : Fin n → Int) (hn : 2 ≤ n) (i j : Fin n) :
+    ncaWeights L X y i j =
+      (if y i = y j then (1:ℝ) else 0) * softmaxDoc (fun i j => embSqDist L X i j) i j -
+        softmaxDoc (fun i j => embSqDist L X i j) i j *
+          ∑ l, (if y i = y l then (1:ℝ) else 0) * softmaxDoc (fun i j => embSqDist L X i j) i l := by
+  have hc : ∀ l, softmaxCode (fun i j => embSqDist L X i j) i l = softmaxDoc (fun i j => embSqDist L X i j) i l :=
+    fun l => C10_softmax _ i l (exists_ne_of_two_le hn i)
+  simp only [ncaWeights, vsum_eq_sum, hc]
+  congr 1
+  · split <;> simp
+  · congr 1; apply Finset.sum_congr rfl; intro l _; split <;> simp
+
+/-- **NCA: the gradient handed to L-BFGS is the derivative of the documented objective** (for every
+transformation `L`, of any number of rows, and every direction `D`) -/
+theorem C10_nca_gradient (L D : Mat ℝ k d) (X : Mat ℝ n d) (y : Fin n → Int) (hn : 2 ≤ n) :
+    HasDerivAt (fun t => ncaObjective (lineAt L D t) X y) (frob (ncaGradCode L X y) D) 0 := by
+  set e : ℝ → Mat ℝ n n := fun t i j => embSqDist (lineAt L D t) X i j with he
+  set b : Mat ℝ n n := fun i j => bil L D (vsub (X i) (X j)) (vsub (X i) (X j)) with hb
+  have hder : ∀ i j, HasDerivAt (fun t => e t i j) (2 * b i j) 0 := fun i j => embSqDist_hasDerivAt L D X i j
+  have he0 : e 0 = fun i j => embSqDist L X i j := by funext i j; simp [he]
+  set P : Mat ℝ n n := softmaxDoc (e 0) with hP
+  have hfun : (fun t => ncaObjective (lineAt L D t) X y) =
+      fun t => ∑ i, ∑ j, (if y i = y j then (1:ℝ) else 0) * softmaxDoc (e t) i j := by
+    funext t; rw [C10_nca_objective _ X y hn]
+    apply Finset.sum_congr rfl; intro i _; apply Finset.sum_congr rfl; intro j _
+    split <;> simp [he]
+  rw [hfun]
+  have hsum : HasDerivAt (fun t => ∑ i, ∑ j, (if y i = y j then (1:ℝ) else 0) * softmaxDoc (e t) i j)
+      (∑ i, ∑ j, (if y i = y j then (1:ℝ) else 0) * (P i j * ((∑ l, P i l * (2 * b i l)) - 2 * b i j))) 0 := by
+    apply HasDerivAt.fun_sum; intro i _
+    apply HasDerivAt.fun_sum; intro j _
+    exact (softmaxDoc_hasDerivAt e (fun i j => 2 * b i j) hder i j (exists_ne_of_two_le hn i)).const_mul _
+  refine hsum.congr_deriv ?_
+  -- the code's gradient, through the Laplacian form
+  have hdiag : ∀ i, ncaWeights L X y i i = 0 := by
+    intro i; rw [ncaWeights_doc L X y hn]; simp [softmaxDoc]
+  have hrow : ∀ i, ∑ j, ncaWeights L X y i j = 0 := by
+    intro i
+    simp only [ncaWeights_doc L X y hn, Finset.sum_sub_distrib, ← Finset.sum_mul,
+      C10_softmax_sum_one _ i (exists_ne_of_two_le hn i), one_mul, sub_self]
+  rw [ncaGradCode, frob_gradFromWeights, symFillDiag_laplacian _ L D X hdiag hrow]
+  simp only [ncaWeights_doc L X y hn, ← he0, ← hP, ofNat_real]
+  have hrowalg : ∀ i, (∑ j, (if y i = y j then (1:ℝ) else 0) * (P i j * ((∑ l, P i l * (2 * b i l)) - 2 * b i j))) =
+      -(2 * ∑ j, ((if y i = y j then (1:ℝ) else 0) * P i j - P i j * ∑ l, (if y i = y l then (1:ℝ) else 0) * P i l) * b i j) := by
+    intro i
+    have := nca_row_algebra (fun j => P i j) (fun j => if y i = y j then (1:ℝ) else 0) (fun j => 2 * b i j)
+    simp only [← mul_assoc] at this ⊢
+    rw [this, Finset.mul_sum]
+    congr 1; apply Finset.sum_congr rfl; intro j _; ring
+  simp only [hrowalg, Finset.sum_neg_distrib, ← Finset.mul_sum]
+  push_cast; ring
+
+/-- the weight matrix of MLKR's gradient in terms of the documented softmax -/
+theorem mlkrWeights_doc (L : Mat ℝ k d) (X : Mat ℝ n d) (y : Vec ℝ n) (hn : 2 ≤ n) (i j : Fin n) :
+    mlkrWeights L X y i j =
+      softmaxDoc (fun i j => embSqDist L X i j) i j *
+        ((∑ l, softmaxDoc (fun i j => embSqDist L X i j) i l * y l) - y i) *
+        (y j - ∑ l, softmaxDoc (fun i j => embSqDist L X i j) i l * y l) := by
+  have hc : ∀ l, softmaxCode (fun i j => embSqDist L X i j) i l = softmaxDoc (fun i j => embSqDist L X i j) i l :=
+    fun l => C10_softmax _ i l (exists_ne_of_two_le hn i)
+  simp only [mlkrWeights, vsum_eq_sum, hc]
+
+/-- **MLKR: the gradient handed to L-BFGS is the derivative of the documented leave-one-out cost** -/
+theorem C10_mlkr_gradient (L D : Mat ℝ k d) (X : Mat ℝ n d) (y : Vec ℝ n) (hn : 2 ≤ n) :
+    HasDerivAt (fun t => mlkrObjective (lineAt L D t) X y) (frob (mlkrGradCode L X y) D) 0 := by
+  set e : ℝ → Mat ℝ n n := fun t i j => embSqDist (lineAt L D t) X i j with he
+  set b : Mat ℝ n n := fun i j => bil L D (vsub (X i) (X j)) (vsub (X i) (X j)) with hb
+  have hder : ∀ i j, HasDerivAt (fun t => e t i j) (2 * b i j) 0 := fun i j => embSqDist_hasDerivAt L D X i j
+  have he0 : e 0 = fun i j => embSqDist L X i j := by funext i j; simp [he]
+  set P : Mat ℝ n n := softmaxDoc (e 0) with hP
+  have hfun : (fun t => mlkrObjective (lineAt L D t) X y) =
+      fun t => ∑ i, ((∑ j, softmaxDoc (e t) i j * y j) - y i) ^ 2 := by
+    funext t; rw [C10_mlkr_objective _ X y hn]
+  rw [hfun]
+  have hyhat : ∀ i, HasDerivAt (fun t => (∑ j, softmaxDoc (e t) i j * y j) - y i)
+      (∑ j, P i j * ((∑ l, P i l * (2 * b i l)) - 2 * b i j) * y j) 0 := by
+    intro i
+    have : HasDerivAt (fun t => ∑ j, softmaxDoc (e t) i j * y j)
+        (∑ j, P i j * ((∑ l, P i l * (2 * b i l)) - 2 * b i j) * y j) 0 := by
+      apply HasDerivAt.fun_sum; intro j _
+      exact (softmaxDoc_hasDerivAt e (fun i j => 2 * b i j) hder i j (exists_ne_of_two_le hn i)).mul_const _
+    exact this.sub_const _
+  have hsum : HasDerivAt (fun t => ∑ i, ((∑ j, softmaxDoc (e t) i j * y j) - y i) ^ 2)
+      (∑ i, 2 * ((∑ j, P i j * y j) - y i) * (∑ j, P i j * ((∑ l, P i l * (2 * b i l)) - 2 * b i j) * y j)) 0 := by
+    apply HasDerivAt.fun_sum; intro i _
+    have := (hyhat i).pow 2
+    refine this.congr_deriv ?_
+    simp [hP]
+  refine hsum.congr_deriv ?_
+  have hdiag : ∀ i, mlkrWeights L X y i i = 0 := by
+    intro i; rw [mlkrWeights_doc L X y hn]; simp [softmaxDoc]
+  have hrow : ∀ i, ∑ j, mlkrWeights L X y i j = 0 := by
+    intro i
+    simp only [mlkrWeights_doc L X y hn]
+    have h1 := C10_softmax_sum_one (fun i j => embSqDist L X i j) i (exists_ne_of_two_le hn i)
+    set Q := softmaxDoc (fun i j => embSqDist L X i j) i with hQ
+    set yh := ∑ l, Q l * y l with hyh
+    have : (∑ j, Q j * (yh - y i) * (y j - yh)) = (yh - y i) * ((∑ j, Q j * y j) - (∑ j, Q j) * yh) := by
+      rw [Finset.sum_mul, ← Finset.sum_sub_distrib, Finset.mul_sum]
+      apply Finset.sum_congr rfl; intro j _; ring
+    rw [this, h1, ← hyh]; ring
+  rw [mlkrGradCode, frob_gradFromWeights, symFillDiag_laplacian _ L D X hdiag hrow]
+  simp only [mlkrWeights_doc L X y hn, ← he0, ← hP, ofNat_real]
+  have hrowalg : ∀ i, (∑ j, P i j * ((∑ l, P i l * (2 * b i l)) - 2 * b i j) * y j) =
+      -(2 * ∑ j, P i j * (y j - ∑ l, P i l * y l) * b i j) := by
+    intro i
+    have := mlkr_row_algebra (fun j => P i j) y (fun j => 2 * b i j)
+    have h' : (∑ j, P i j * ((∑ l, P i l * (2 * b i l)) - 2 * b i j) * y j) =
+        ∑ j, P i j * y j * ((∑ l, P i l * (2 * b i l)) - 2 * b i j) := by
+      apply Finset.sum_congr rfl; intro j _; ring
+    rw [h', this, Finset.mul_sum]
+    congr 1; apply Finset.sum_congr rfl; intro j _; ring
+  simp only [hrowalg]
+  simp only [hb]
+  push_cast
+  rw [mul_neg, Finset.mul_sum, ← Finset.sum_neg_distrib]
+  apply Finset.sum_congr rfl; intro i _
+  have hx : (∑ j, P i j * ((∑ l, P i l * y l) - y i) * (y j - ∑ l, P i l * y l) *
+        bil L D (vsub (X i) (X j)) (vsub (X i) (X j))) =
+      ((∑ l, P i l * y l) - y i) * ∑ j, P i j * (y j - ∑ l, P i l * y l) *
+        bil L D (vsub (X i) (X j)) (vsub (X i) (X j)) := by
+    rw [Finset.mul_sum]; apply Finset.sum_congr rfl; intro j _; ring
+  rw [hx]; ring
+
+/-! ### LMNN: `2·L·G` is the derivative of the documented objective wherever no hinge sits at its kink -/
+
+theorem lsum_map_hasDerivAt {β : Type} (l : List β) (f : β → ℝ → ℝ) (f' : β → ℝ) (x : ℝ)
+    (h : ∀ a ∈ l, HasDerivAt (f a) (f' a) x) :
+    HasDerivAt (fun t => lsum (l.map fun a => f a t)) (lsum (l.map f')) x := by
+  induction l with
+  | nil => simpa [lsum] using hasDerivAt_const x (0:ℝ)
+  | cons a t ih =>
+    simp only [List.map_cons, lsum]
+    exact (h a (List.mem_cons_self)).fun_add (ih fun b hb => h b (List.mem_cons_of_mem _ hb))
+
+/-- a hinge `max(0, h)` whose argument is not zero at `x` has derivative `h'` (active) or `0` (inactive) -/
+theorem hinge_hasDerivAt (h : ℝ → ℝ) (h' x : ℝ) (hd : HasDerivAt h h' x) (hne : h x ≠ 0) :
+    HasDerivAt (fun t => smax 0 (h t)) (if 0 < h x then h' else 0) x := by
+  have hfun : (fun t => smax 0 (h t)) = fun t => max 0 (h t) := by funext t; exact smax_real _ _
+  rw [hfun]
+  rcases lt_or_gt_of_ne hne with hneg | hpos
+  · rw [if_neg (not_lt.mpr hneg.le)]
+    have hev : (fun t => max 0 (h t)) =ᶠ[nhds x] fun _ => (0:ℝ) := by
+      have := hd.continuousAt.eventually (gt_mem_nhds hneg)
+      filter_upwards [this] with t ht
+      exact max_eq_left ht.le
+    exact (hasDerivAt_const x (0:ℝ)).congr_of_eventuallyEq hev
+  · rw [if_pos hpos]
+    have hev : (fun t => max 0 (h t)) =ᶠ[nhds x] h := by
+      have := hd.continuousAt.eventually (lt_mem_nhds hpos)
+      filter_upwards [this] with t ht
+      exact max_eq_right ht.le
+    exact hd.congr_of_eventuallyEq hev
+
+/-- `⟨L·G, D⟩` is linear in `G` -/
+theorem frobLD_lin (L D : Mat ℝ k d) (A B : Mat ℝ d d) (c1 c2 : ℝ) :
+    frob (matMul L (fun a b => c1 * A a b + c2 * B a b)) D = c1 * frob (matMul L A) D + c2 * frob (matMul L B) D := by
+  simp only [frob, matMul, vsum_eq_sum, Finset.mul_sum, Finset.sum_mul, ← Finset.sum_add_distrib]
+  apply Finset.sum_congr rfl; intro r _
+  apply Finset.sum_congr rfl; intro b _
+  apply Finset.sum_congr rfl; intro a _
+  ring
+
+theorem frobLD_zero (L D : Mat ℝ k d) : frob (matMul L (fun _ _ => (0:ℝ))) D = 0 := by
+  simp [frob, matMul, vsum_eq_sum]
+
+/-- `⟨L·vvᵀ, D⟩ = ⟨L v, D v⟩` -/
+theorem frobLD_outer (L D : Mat ℝ k d) (v : Vec ℝ d) :
+    frob (matMul L (fun a b => v a * v b)) D = bil L D v v := by
+  simp only [frob, matMul, bil, lv, vsum_eq_sum]
+  apply Finset.sum_congr rfl; intro r _
+  rw [Finset.sum_mul_sum]
+  rw [Finset.sum_comm]
+  apply Finset.sum_congr rfl; intro b _
+  rw [Finset.sum_mul]
+  apply Finset.sum_congr rfl; intro a _
+  ring
+
+theorem frobLD_sumOuter (L D : Mat ℝ k d) (X : Mat ℝ n d) (ps : List (Fin n × Fin n)) :
+    frob (matMul L (sumOuterPairs X ps)) D =
+      lsum (ps.map fun p => bil L D (vsub (X p.1) (X p.2)) (vsub (X p.1) (X p.2))) := by
+  induction ps with
+  | nil =>
+    have : sumOuterPairs X ([] : List (Fin n × Fin n)) = fun _ _ => (0:ℝ) := by funext a b; simp [sumOuterPairs, lsum]
+    rw [this, frobLD_zero]; simp [lsum]
+  | cons p t ih =>
+    have : sumOuterPairs X (p :: t) = fun a b => 1 * ((X p.1 a - X p.2 a) * (X p.1 b - X p.2 b)) + 1 * sumOuterPairs X t a b := by
+      funext a b; simp [sumOuterPairs, lsum]
+    rw [this, frobLD_lin, ih]
+    have h := frobLD_outer L D (vsub (X p.1) (X p.2))
+    simp only [vsub] at h
+    simp only [List.map_cons, lsum, one_mul]
+    rw [← h]
+
+theorem lsum_map_smul {β : Type} (l : List β) (f : β → ℝ) (c : ℝ) : lsum (l.map fun t => c * f t) = c * lsum (l.map f) := by
+  induction l with
+  | nil => simp [lsum]
+  | cons a t ih => simp only [List.map_cons, lsum, ih]; ring
+
+/-- sum over all candidates of an "active ? value : 0" term = sum of the values over the active ones -/
+theorem lsum_ite_filter {β : Type} (l : List β) (p : β → Prop) [DecidablePred p] (f : β → ℝ) :
+    lsum (l.map fun t => if p t then f t else 0) = lsum ((l.filter fun t => decide (p t)).map f) := by
+  induction l with
+  | nil => simp [lsum]
+  | cons a t ih =>
+    simp only [List.map_cons, lsum, List.filter_cons, ih]
+    by_cases hp : p a
+    · simp [hp, lsum]
+    · simp [hp]
+
+/-- **LMNN: the gradient `_loss_grad` returns (`2·L·G`) is the derivative of the documented pull + push objective**
+at every transformation at which no candidate hinge is exactly at its kink (`d_il ≠ 1 + d_ij` for all candidate
+triples; the objective is not differentiable at a kink and the code then returns a sub-gradient) -/
+theorem C10_lmnn_gradient (L D : Mat ℝ k d) (X : Mat ℝ n d) (targetPairs : List (Fin n × Fin n))
+    (triples : List (Fin n × Fin n × Fin n)) (reg : ℝ)
+    (hkink : ∀ t ∈ triples, 1 + embSqDist L X t.1 t.2.1 - embSqDist L X t.1 t.2.2 ≠ 0) :
+    HasDerivAt (fun s => lmnnDocObjectiveL (lineAt L D s) X targetPairs triples reg)
+      (frob (lmnnGradCode L X targetPairs triples reg) D) 0 := by
+  set bb : Fin n → Fin n → ℝ := fun i j => bil L D (vsub (X i) (X j)) (vsub (X i) (X j)) with hbb
+  have hpull : HasDerivAt (fun s => lsum (targetPairs.map fun p => embSqDist (lineAt L D s) X p.1 p.2))
+      (lsum (targetPairs.map fun p => 2 * bb p.1 p.2)) 0 :=
+    lsum_map_hasDerivAt targetPairs (fun p s => embSqDist (lineAt L D s) X p.1 p.2) _ 0
+      (fun p _ => embSqDist_hasDerivAt L D X p.1 p.2)
+  have hpush : HasDerivAt (fun s => lsum (triples.map fun t =>
+        smax 0 (1 + embSqDist (lineAt L D s) X t.1 t.2.1 - embSqDist (lineAt L D s) X t.1 t.2.2)))
+      (lsum (triples.map fun t => if 0 < 1 + embSqDist L X t.1 t.2.1 - embSqDist L X t.1 t.2.2
+        then 2 * bb t.1 t.2.1 - 2 * bb t.1 t.2.2 else 0)) 0 := by
+    apply lsum_map_hasDerivAt triples
+      (fun t s => smax 0 (1 + embSqDist (lineAt L D s) X t.1 t.2.1 - embSqDist (lineAt L D s) X t.1 t.2.2))
+    intro t ht
+    have hd : HasDerivAt (fun s => 1 + embSqDist (lineAt L D s) X t.1 t.2.1 - embSqDist (lineAt L D s) X t.1 t.2.2)
+        (2 * bb t.1 t.2.1 - 2 * bb t.1 t.2.2) 0 :=
+      ((embSqDist_hasDerivAt L D X t.1 t.2.1).const_add 1).fun_sub (embSqDist_hasDerivAt L D X t.1 t.2.2)
+    have := hinge_hasDerivAt _ _ 0 hd (by simpa using hkink t ht)
+    simpa using this
+  have htot := (hpull.const_mul reg).fun_add (hpush.const_mul (1 - reg))
+  unfold lmnnDocObjectiveL
+  refine htot.congr_deriv ?_
+  -- the code's gradient
+  unfold lmnnGradCode
+  simp only
+  set act := lmnnActive L X triples with hact
+  have hG : (fun a b => (Scalar.ofNat 2 : ℝ) * matMul L (fun a b => sumOuterPairs X targetPairs a b * reg +
+        (sumOuterPairs X (act.map fun t => (t.1, t.2.1)) a b - sumOuterPairs X (act.map fun t => (t.1, t.2.2)) a b) * (1 - reg)) a b)
+      = matMul L (fun a b => (2 * reg) * sumOuterPairs X targetPairs a b + (2 * (1 - reg)) *
+          (1 * sumOuterPairs X (act.map fun t => (t.1, t.2.1)) a b + (-1) * sumOuterPairs X (act.map fun t => (t.1, t.2.2)) a b)) := by
+    funext a b
+    simp only [matMul, vsum_eq_sum, ofNat_real, Finset.mul_sum]
+    apply Finset.sum_congr rfl; intro c _; push_cast; ring
+  rw [hG, frobLD_lin, frobLD_lin, frobLD_sumOuter, frobLD_sumOuter, frobLD_sumOuter]
+  rw [lsum_ite_filter]
+  have hfilter : (triples.filter fun t => decide (0 < 1 + embSqDist L X t.1 t.2.1 - embSqDist L X t.1 t.2.2)) = act := by
+    rw [hact]; unfold lmnnActive
+    apply List.filter_congr; intro t _
+    simp only [decide_eq_decide]
+    constructor <;> intro h <;> linarith
+  rw [hfilter]
+  simp only [List.map_map, Function.comp_def]
+  have e1 : lsum (targetPairs.map fun p => 2 * bb p.1 p.2) = 2 * lsum (targetPairs.map fun p => bb p.1 p.2) :=
+    lsum_map_smul _ _ _
+  have e2 : lsum (act.map fun t => 2 * bb t.1 t.2.1 - 2 * bb t.1 t.2.2) =
+      2 * lsum (act.map fun t => bb t.1 t.2.1) - 2 * lsum (act.map fun t => bb t.1 t.2.2) := by
+    have : (fun t : Fin n × Fin n × Fin n => 2 * bb t.1 t.2.1 - 2 * bb t.1 t.2.2) =
+        fun t => 2 * bb t.1 t.2.1 + (-2) * bb t.1 t.2.2 := by funext t; ring
+    rw [this, lsum_map_add, lsum_map_smul, lsum_map_smul]; ring
+  rw [e1, e2]
+  ring
+
+/-- non-vacuity of `C10_lmnn_gradient`: a configuration with an active and an inactive candidate, none at its kink -/
+example : ∃ (L : Mat ℝ 1 1) (X : Mat ℝ 3 1),
+    (1 + embSqDist L X 0 1 - embSqDist L X 0 2 ≠ 0) ∧ (0 < 1 + embSqDist L X 0 1 - embSqDist L X 0 2) := by
+  refine ⟨fun _ _ => 1, fun i _ => if i = 1 then 2 else if i = 2 then 1 else 0, ?_, ?_⟩ <;>
+    simp [embSqDist, sumSq, vsum_eq_sum, transform_apply, vsub]
